@@ -64,7 +64,8 @@ impl BlocksCount {
     pub fn passed_from(&self, prev: &BlocksCount) -> usize {
         match self.lines {
             lines if lines < prev.lines => ATTR_COLS - prev.columns,
-            lines if lines == prev.lines => self.columns - prev.columns,
+            // the beam can be behind `prev` after a snapshot moved the frame clock back
+            lines if lines == prev.lines => self.columns.saturating_sub(prev.columns),
             _ => {
                 (ATTR_COLS - prev.columns)
                     + (self.lines - prev.lines - 1) * ATTR_COLS
